@@ -194,7 +194,8 @@ class Net:
                                      'metadata': {'name': 'default', 'uid': 'uid-peering', 'resourceVersion': '0'}, 'status': {}}
         self.ver = 0
         self.ops: dict[str, Op] = {}
-        self.by_settings: dict[int, tuple[Op, int]] = {}
+        self.by_settings: dict[int, tuple[Op, int]] = {}    # (unused: callers are identified by settings._kv_c13)
+        self.closed = False
         self.labels: list[str] = []
         self.trace: list[list] = []       # JSON-able copy of the labels for replay files
         self.last_t = ms(loop.time())
@@ -301,9 +302,20 @@ def installed(net: Net) -> Iterator[None]:
     if not asyncio.iscoroutinefunction(getattr(peering, 'process_peering_event', None)):
         raise RuntimeError('observation point missing: peering.process_peering_event')
 
+    def who(settings: Any) -> tuple[Any, int] | None:
+        # a coroutine left over from an EARLIER network (finalised by the garbage collector at an arbitrary moment, its
+        # `finally:` blocks then run here) must not touch this one
+        tag = getattr(settings, '_kv_c13', None)
+        if tag is None or tag[0] is not net or net.closed:
+            return None
+        return tag[1], tag[2]
+
     async def patch_obj(*, settings: Any, resource: Any, namespace: Any, name: str, patch: Any, logger: Any,
                         silent: bool = False) -> tuple[Any, Any]:
-        op, epoch = net.by_settings[id(settings)]
+        w = who(settings)
+        if w is None:
+            return None, None
+        op, epoch = w
         p = dict(patch)
         st = p.get('status', {})
         site = CALLSITE.get()
@@ -358,7 +370,10 @@ def installed(net: Net) -> Iterator[None]:
 
     async def infinite_watch(*, settings: Any, resource: Any, namespace: Any, operator_paused: Any = None,
                              **_: Any) -> Any:
-        op, epoch = net.by_settings[id(settings)]
+        w = who(settings)
+        if w is None:
+            return
+        op, epoch = w
         await asyncio.sleep(op.spec['list_delay'])
         op.listed = True
         net.label(f'LList {cq.cstr(op.id)}', ['list', op.id])
@@ -373,7 +388,10 @@ def installed(net: Net) -> Iterator[None]:
     orig_watching, orig_aiotime = queueing.watching, peering.aiotime
 
     async def process_peering_event(**kw: Any) -> None:
-        op, epoch = net.by_settings[id(kw['settings'])]
+        w = who(kw['settings'])
+        if w is None:
+            return
+        op, epoch = w
         ver = int(kw['raw_event']['object']['metadata']['resourceVersion'])
         tok = IN_EVENT.set({'op': op, 'ver': ver, 'cleaned': [], 'toggle': kw.get('conflicts_found'), 'labelled': False,
                             'status': copy.deepcopy(kw['raw_event']['object'].get('status', {}))})
@@ -493,7 +511,7 @@ def start_op(net: Net, spec: dict, announce_latency: float = 0.0) -> Op:
     op.last_delivery = 0.0
     op.started_at = net.loop.time()
     op.settings = make_settings({'name': 'default', 'prio': spec['prio'], 'life': spec['life'], 'mandatory': spec.get('mandatory', False)})
-    net.by_settings[id(op.settings)] = (op, op.epoch)
+    op.settings._kv_c13 = (net, op, op.epoch)      # not id(settings): addresses are reused after garbage collection
     net.label(f"LStart {cq.cstr(op.id)} {cq.cZ(spec['prio'])} {cq.cZ(spec['life'])} {cq.cbool(spec.get('mandatory', False))}",
               ['start', op.id, spec['prio'], spec['life'], spec.get('mandatory', False)])
     cx = contextvars.copy_context()
@@ -703,7 +721,63 @@ def monitor_records(ctx: fw.Ctx, net: Net) -> None:
 
 
 def run_scenario(ctx: fw.Ctx, sc: dict) -> Net:
-    loop = vloop.new_loop(start=1000.0)
+    import gc
+    gc.collect()          # leftovers of earlier scenarios are finalised between scenarios, not inside one
+    try:
+        return _run_scenario(ctx, sc)
+    finally:
+        gc.collect()
+
+
+class _SeqTimerHandle(asyncio.TimerHandle):
+    """Timers with equal deadlines fire in the order they were scheduled.  asyncio orders its heap by the deadline
+    only, so ties fire in an order that depends on the heap's shape, i.e. on every unrelated timer pushed before —
+    and kopf cancels sets of tasks (aiotasks.stop over Ensemble.get_tasks(): a set, iterated by address), which
+    varies the push order of unrelated timers from process to process."""
+    __slots__ = ('_seq',)
+
+    def __lt__(self, other: Any) -> bool:
+        if isinstance(other, _SeqTimerHandle):
+            return (self._when, self._seq) < (other._when, other._seq)
+        return super().__lt__(other)
+
+    def __le__(self, other: Any) -> bool:
+        if isinstance(other, _SeqTimerHandle):
+            return (self._when, self._seq) <= (other._when, other._seq)
+        return super().__le__(other)
+
+    def __gt__(self, other: Any) -> bool:
+        if isinstance(other, _SeqTimerHandle):
+            return (self._when, self._seq) > (other._when, other._seq)
+        return super().__gt__(other)
+
+    def __ge__(self, other: Any) -> bool:
+        if isinstance(other, _SeqTimerHandle):
+            return (self._when, self._seq) >= (other._when, other._seq)
+        return super().__ge__(other)
+
+
+class SeqLoop(vloop.VLoop):
+    """VLoop whose same-instant timers are FIFO (see _SeqTimerHandle)."""
+
+    def __init__(self, start: float = 0.0) -> None:
+        super().__init__(start=start)
+        self._kv_seq = 0
+
+    def call_at(self, when: float, callback: Any, *args: Any, context: Any = None) -> asyncio.TimerHandle:  # type: ignore[override]
+        import heapq
+        self._check_closed()  # type: ignore[attr-defined]
+        timer = _SeqTimerHandle(when, callback, args, self, context)
+        self._kv_seq += 1
+        timer._seq = self._kv_seq
+        heapq.heappush(self._scheduled, timer)  # type: ignore[attr-defined]
+        timer._scheduled = True
+        return timer
+
+
+def _run_scenario(ctx: fw.Ctx, sc: dict) -> Net:
+    loop = SeqLoop(start=1000.0)
+    asyncio.set_event_loop(loop)
     net = Net(loop, sc)
     t0 = loop.time()
     with installed(net), vloop.running(loop):
@@ -765,7 +839,24 @@ def run_scenario(ctx: fw.Ctx, sc: dict) -> Net:
         for op in list(net.ops.values()):
             if op.state == 'up':
                 kill_op(net, op)
+        net.closed = True                 # nothing of this network is observed or judged from here on
+        for op in list(net.ops.values()):
+            _teardown(net, op)            # exiting processes still draining, too
+        for _ in range(50):
+            left = [t for t in asyncio.all_tasks(loop) if not t.done()]
+            if not left:
+                break
+            for t in left:
+                t.cancel()
+            loop.settle()
+            nt = loop.next_timer()
+            if nt is not None:
+                loop.advance_to(nt)
+        import gc
+        gc.collect()                      # finalisers of abandoned coroutines run here, deterministically
+        loop.settle()
     vloop.close_loop(loop)
+    gc.collect()
     return net
 
 
